@@ -1,6 +1,8 @@
 //! `hv <property> <tier> <seed> <cases-file> <stats-file>`: run the real Humphrey code on generated
 //! cases and write one line per case (`fn<TAB>args...<TAB>impl-output`) for the Lean driver.
 mod common;
+mod c01;
+mod c04;
 mod c13;
 mod c08;
 mod c15;
@@ -16,6 +18,7 @@ mod tables;
 
 fn exec(prop: &str, f: &[String]) -> Option<String> {
     match prop {
+        "C01" | "C04" => c01::exec(f),
         "C02" => c02::exec(f),
         "C05" => c05::exec(f),
         "C07" => c07::exec(f),
@@ -70,6 +73,8 @@ fn main() {
     let seed: u64 = args[3].parse().unwrap_or(1);
     let mut out = common::Out::new(&args[4]);
     match args[1].as_str() {
+        "C01" => c01::gen(&mut out, thorough, seed),
+        "C04" => c04::gen(&mut out, thorough, seed),
         "C02" => c02::gen(&mut out, thorough, seed),
         "C05" => c05::gen(&mut out, thorough, seed),
         "C07" => c07::gen(&mut out, thorough, seed),
